@@ -143,7 +143,7 @@ Legal(c) ==
   /\ PasswordOK(c.encs)
   /\ (c.rot \in {"srk_table_ahab", "srk_table_ahab_v2"} => \A i \in 1..4 : IsCa(c.encs[i]) = IsCa(c.encs[1]))   \* one flag for the table
   /\ (c.path = "rkht_parse" /\ c.rot = "cert_block_21" => N(c.keys) >= 2)             \* a one-key table is empty: nothing to parse
-  /\ (c.path = "dc" /\ c.rot = "cert_block_1" => \A i \in 1..N(c.keys) : c.keys[i].cls # "rsa3072")  \* DAT protocol 1.0 / 1.1: RSA-2048 / 4096
+  /\ (c.path = "dc" => \A i \in 1..N(c.keys) : c.keys[i].cls # "rsa3072")        \* DAT protocol versions: RSA-2048 / RSA-4096 only
 Cas(c) == [i \in 1..N(c.keys) |-> IsCa(c.encs[i])]
 DocCase(c) == Doc(c.rot, c.keys, Cas(c))
 \* an observed value conforms: it IS the evaluated term (PFR: the ROTKH field = the value, zero padded to the field)
